@@ -49,9 +49,9 @@ type UDPNet struct {
 	// SilenceFrom[dir] = n: datagram n and all later ones of that direction vanish.
 	SilenceFrom map[string]int
 	// Mangle, when set, may replace a datagram's bytes on delivery (C12).
-	Mangle  func(dir string, seq int, b []byte) []byte
-	servers []*UDPServer
-	clients []*UDPClient
+	Mangle   func(dir string, seq int, b []byte) []byte
+	servers  []*UDPServer
+	clients  []*UDPClient
 	DialFail int
 }
 
